@@ -251,18 +251,44 @@ def kkt_mirror(rep, F, E, G, tag):
             R.check(ok, 'wiring|%s%s' % (nm, tag),
                     'DirectLDLKKTSolver::%s must call _update_values(ldlsolver, KKT, map.%s, %s.nzval); found %s' % (
                         nm, mp, mp, [(c.callee.name, [canon(f.sym_operand(x)) for x in c.args]) for c in cs]), f.loc())
-        # QDLDL value updates go through AtoPAPt
+        # every LDL engine that keeps a permuted copy applies value updates through its entry map, with the same
+        # semantics (sibling agreement between the backends): update = overwrite with values[i], scale = multiply by
+        # the factor, offset = add +/- the offset according to the sign
+        engines = [('QDLDLFactorisation', 'AtoPAPt')]
+        if F.find(name='update_values', adt='FaerDirectLDLSolver'):
+            engines.append(('FaerDirectLDLSolver', 'perm_map'))
+        for adt, mapfld in engines:
+            for nm in ('update_values', 'scale_values', 'offset_values'):
+                f = F.one(name=nm, adt=adt)
+                targets = []
+                ops = []
+                for val, ret, ev, tr in Walker(f, cut_loops=True).leaves():
+                    for e in ev:
+                        if e[0] == 'store' and 'nzval' in e[1]:
+                            targets.append(e[1])
+                            ops.append(('store', str(e[2])))
+                        if e[0] == 'call' and e[1] in ('mul_assign', 'add_assign', 'sub_assign') and 'nzval' in e[2]:
+                            targets.append(e[2])
+                            ops.append((e[1], split_args(e[2])[1]))
+                R.check(bool(targets) and all(mapfld in t for t in targets), 'engine-indirect|%s|%s%s' % (adt, nm, tag),
+                        '%s::%s writes %s: every write to the permuted copy must be indexed through %s' % (adt, nm, [t[:80] for t in targets][:2], mapfld), f.loc())
+                kinds = set(k for k, v in ops)
+                if nm == 'update_values':
+                    ok = kinds == {'store'} and all(v.startswith('index(arg3, ') or v.startswith('arg3[') for k, v in ops)
+                    R.check(ok, 'engine-semantics|%s|%s%s' % (adt, nm, tag), '%s::update_values performs %s, expected an overwrite with values[i]' % (adt, ops[:2]), f.loc())
+                elif nm == 'scale_values':
+                    ok = kinds == {'mul_assign'} and all(v == 'arg3' for k, v in ops)
+                    R.check(ok, 'engine-semantics|%s|%s%s' % (adt, nm, tag), '%s::scale_values performs %s, expected a multiplication by the scale factor' % (adt, ops[:2]), f.loc())
+                else:
+                    ok = kinds <= {'add_assign', 'sub_assign'} and 'add_assign' in kinds and all('arg3' in v for k, v in ops)
+                    R.check(ok, 'engine-semantics|%s|%s%s' % (adt, nm, tag), '%s::offset_values performs %s, expected +/- offset by sign' % (adt, ops[:2]), f.loc())
+        # the wrappers forward (index, values) unchanged
         for nm in ('update_values', 'scale_values', 'offset_values'):
-            f = F.one(name=nm, adt='QDLDLFactorisation')
-            targets = []
-            for val, ret, ev, tr in Walker(f, cut_loops=True).leaves():
-                for e in ev:
-                    if e[0] == 'store' and 'nzval' in e[1]:
-                        targets.append(e[1])
-                    if e[0] == 'call' and e[1] in ('mul_assign', 'add_assign', 'sub_assign') and 'nzval' in e[2]:
-                        targets.append(e[2])
-            R.check(bool(targets) and all('AtoPAPt' in t for t in targets), 'qdldl-indirect|%s%s' % (nm, tag),
-                    'QDLDLFactorisation::%s writes %s: every write must be indexed through AtoPAPt' % (nm, [t[:80] for t in targets][:2]), f.loc())
+            g = F.one(name=nm, adt='QDLDLDirectLDLSolver')
+            cs = [c for c in g.calls if c.callee.name == nm]
+            want = ['arg2', 'arg3'] + (['arg4'] if nm == 'offset_values' else [])
+            R.check(len(cs) == 1 and [canon(g.sym_operand(x)) for x in cs[0].args][1:] == want, 'wrapper-forwards|%s%s' % (nm, tag),
+                    'QDLDLDirectLDLSolver::%s does not forward its arguments unchanged' % nm, g.loc())
 
     R.guard(body)
 
